@@ -24,11 +24,12 @@ type Scenario struct {
 	Clients   []Client    `json:"clients"`
 	OpStepCap int64       `json:"op_step_cap"` // pristine-world cap per operation
 	// C13
-	Limits  []int      `json:"limits,omitempty"`
-	Exhaust bool       `json:"exhaustive,omitempty"`
-	Expect  *Violation `json:"expect,omitempty"` // replay: the violation this file reproduces
-	Note    string     `json:"note,omitempty"`
-	NoDrain bool       `json:"no_drain,omitempty"` // stop when the last client is done (the clock legitimately outlives the run)
+	Limits           []int      `json:"limits,omitempty"`
+	Exhaust          bool       `json:"exhaustive,omitempty"`
+	Expect           *Violation `json:"expect,omitempty"` // replay: the violation this file reproduces
+	Note             string     `json:"note,omitempty"`
+	DefaultTimeoutNs int64      `json:"default_timeout_ns,omitempty"` // regexp2.DefaultMatchTimeout is set to this before the Regexps are compiled (0: left at "forever")
+	NoDrain          bool       `json:"no_drain,omitempty"`           // stop when the last client is done (the clock legitimately outlives the run)
 }
 
 type ReSpec struct {
